@@ -125,8 +125,3 @@ structure PrimsNoPanic (P : Prims) (O : OutPrims) : Prop where
   applyFilter : ∀ n r as, NoPanicRes (P.applyFilter n r as)
   chunks : ∀ v, NoPanicRes (O.chunks v)
 
-theorem liftL_noPanic_index (a b : GoVal) : NoPanicRes (liftL (a.indexValue b)) := by
-  unfold GoVal.indexValue
-  simp only
-  split <;> try (first | trivial | (simp only [liftL]; trivial))
-  all_goals sorry
